@@ -548,6 +548,15 @@ fn e_did_jwk_parse(s: &str) -> Out {
       bb(d.to_json().is_ok());
       st("into CoreDID");
       core_did_accessors(&CoreDID::from(d.clone()));
+      st("VerificationMethod::try_from(DIDJwk)");
+      if let Ok(m) = identity_verification::VerificationMethod::try_from(d.clone()) {
+        crate::json::method_accessors(&m);
+      }
+      st("CoreDocument::expand_did_jwk");
+      if let Ok(doc) = CoreDocument::expand_did_jwk(d.clone()) {
+        st("CoreDocument::expand_did_jwk>to_json");
+        bb((doc.to_json().is_ok(), doc.methods(None).len()));
+      }
       "accepted"
     }
   }
